@@ -15,6 +15,7 @@ CLAIMED = {
     'C02': ('DESIGN.md 2/C02', 'bounded model checking: value decoder total for every tag x every length 0..=12 x all body bytes (with-language: all inner length pairs); parsed messages can be cloned, re-encoded and dropped', BMC),
     'C03': ('DESIGN.md 2/C03', 'bounded model checking: encoder output == an independently generated RFC 8010 reference encoding, byte for byte, for every shape (incl. collections, mixed sets) and all contents, under every enumerated attribute-map order', BMC + '; reference encoder generated from the RFC text (gen/shapes.py)'),
     'C04': ('DESIGN.md 2/C04', 'bounded model checking: for each wire shape (incl. forms the encoder never emits) and ALL contents the parser result equals an independent reference interpretation; collections only in the thorough tier (open risk)', BMC),
+    'C05': ('DESIGN.md 2/C05', 'MIR normal-form identity of every duplicated blocking/async function pair (9 reader primitives, value step, drive loop, entry points, closures): same reads with the same buffer sizes, same calls, same error propagation, same decisions, with the compiler-generated await machinery removed; the tag dispatch of both drive loops is additionally proved equal, and equal to the RFC 8010 partition, by z3 over all 256 tag bytes; differences are confirmed by running both real parsers natively before being reported', 'MIR normalisation (symbolic walk of both bodies) + z3 on the tag dispatch; native differential confirmation of candidates'),
     'C06': ('DESIGN.md 2/C06', 'bounded model checking: parse_parts under enumerated fragmentation schedules (full, 1-byte, alternating 1/2, 1-byte with Interrupted) x all contents x all payload bytes: same result, reader position == end tag + 1, payload byte-identical', BMC),
     'C07': ('DESIGN.md 2/C07', 'bounded model checking: every cut offset of the shape is rejected with UnexpectedEof; a source failing at every offset yields Err(IoError) with the injected kind (all 8 kinds at 3 offsets, one kind at every offset), all contents', BMC),
     'C08': ('DESIGN.md 2/C08', 'bounded model checking: into_read / into_async_read / IppPayload streams == to_bytes() ++ payload ++ EOF for empty, blocking (fragmenting, interrupting) and async (pending) payload sources, consumer buffer sizes cycling 1,2,5,16, all payload bytes', BMC + '; futures_executor::block_on modelled by a poll loop'),
@@ -31,7 +32,6 @@ NOT_APPLICABLE = {
     'C11': 'HTTP clients over sockets, reqwest/hyper/tokio and ureq: I/O, FFI and threads that neither CBMC nor an SMT encoding of MIR can execute; the IPP-level halves are covered by C04/C06/C07/C08',
     'C12': 'certificate validation happens inside native-tls/OpenSSL (FFI) and rustls/ring (assembly) during live handshakes; nothing encodable for a solver',
     'C15': 'a cost/complexity statement over unbounded size families; bounded model checking has no cost semantics and cannot distinguish linear from quadratic at solver-reachable sizes',
-    'C05': 'async state machines do not discharge under Kani/CBMC here: message-level async parsing and even single async reader primitives (read_value polled through a no-op waker, futures pinned on the stack) ran past 15 min / 8 GB in every configuration tried (DESIGN.md 2/C05); the shared ParserState and the blocking twins are covered by C04/C06/C07, the async payload bridges by C08',
     'C18': 'end-to-end behaviour of a binary (file/stdin I/O, HTTP client, live peer, exit status) cannot be executed symbolically; its solver-sized kernels are checked under C10 and C17',
     'C20': 'requires serde_json serialisation and parsing (number formatting/parsing, escaping, recursive descent, HashMap deserialisation) under CBMC: every part is far beyond the measured budget (one std HashMap insert already costs a minute)',
 }
@@ -41,6 +41,11 @@ def main():
     checks = []
     for pid, (ref, text, tech) in sorted(CLAIMED.items()):
         cat, note = 'model_checking', K_NOTE
+        if pid == 'C05':
+            cat = 'translation_validation'
+            note = ('Trusted base: the MIR normaliser in vlib/dup_engine.py; the compiler-generated await machinery; correspondence of AsyncReadExt::read_exact/read with Read::read_exact/read; '
+                    'normal forms compare effects (reads, calls, constructed errors, constants) and decisions, not the data flow between them. Kani/CBMC cannot execute the async state machines (DESIGN.md 1.5), '
+                    'so no bounded-model-checking claim is made for the async front end.')
         if pid in ('C13', 'C14'):
             cat = 'other'
             note = ('Trusted base: the MIR->SMT translator in vlib/smt_engine.py, z3 4.8.12 cross-checked with cvc5 1.0, and the axioms for the http::Uri accessors '
@@ -51,7 +56,7 @@ def main():
             'thorough_cmd': './check %s --tier thorough' % pid,
             'evidence_file': '/verif/evidence/%s.json' % pid,
             'replay_cmd_template': 'cat {path}   # contains the native replay command line (ipp-replay <harness> <input hex>)',
-            'engine': 'S' if pid in ('C13', 'C14') else 'K',
+            'engine': 'S' if pid in ('C13', 'C14') else ('D' if pid == 'C05' else 'K'),
             'level_claimed': {'category': cat, 'text': text, 'design_ref': ref},
             'level_note': note,
             'technique': tech,
@@ -71,8 +76,10 @@ def main():
             'add_only': True,
         },
         'engines': [
-            {'name': 'K', 'path': 'vlib/kani_engine.py', 'serves_properties': sorted(p for p in CLAIMED if p not in ('C13', 'C14')),
+            {'name': 'K', 'path': 'vlib/kani_engine.py', 'serves_properties': sorted(p for p in CLAIMED if p not in ('C13', 'C14', 'C05')),
              'kind_free_text': 'Kani 0.68 codegen of harness crate /verif/kani (path dependency on /repo/ipp) + direct CBMC 6.11 runs with generated --unwindset, auto-deepening, counterexample extraction and native replay'},
+            {'name': 'D', 'path': 'vlib/dup_engine.py', 'serves_properties': ['C05'],
+             'kind_free_text': 'MIR (rustc nightly -Zunpretty=mir, feature async) -> effect/decision normal forms of the blocking and async twin of each function, compared for identity; z3 for the tag dispatch; native differential run as confirmation'},
             {'name': 'S', 'path': 'vlib/smt_engine.py', 'serves_properties': sorted(p for p in CLAIMED if p in ('C13', 'C14')),
              'kind_free_text': 'MIR (rustc nightly -Zunpretty=mir) -> SMT-LIB (strings + bit-vectors) symbolic execution of two loop-free URI helpers, z3 + cvc5'},
         ],
